@@ -164,6 +164,7 @@ class Repo:
         self.consulted: Dict[str, str] = {}  # rel -> sha256 (files a check actually looked at)
         self.parse_failures: List[str] = []
         self.inline_log: List[str] = []  # helper-transparency pre-pass (engine/inline.py)
+        self.removed_helpers: Dict[str, list] = {}
         pkg_dir = os.path.join(self.root, package)
         if not os.path.isdir(pkg_dir):
             raise AnalysisError(f"package directory missing: {pkg_dir}")
@@ -180,6 +181,8 @@ class Repo:
             trees = {name: tree for (path, rel, name, is_pkg, src, tree, sha) in parsed}
             pk = {name: is_pkg for (path, rel, name, is_pkg, src, tree, sha) in parsed}
             self.inline_log = inline_package(trees, pk, known_f, known_c, known_sigs)
+            from .inline import REMOVED
+            self.removed_helpers = {k: list(v) for k, v in REMOVED.items()}
             parsed = [(path, rel, name, is_pkg, src, trees[name], sha) for (path, rel, name, is_pkg, src, tree, sha) in parsed]
         for rec in parsed:
             self._register(*rec)
